@@ -14,7 +14,7 @@ RULE = ('policies (wildcard or specific origin, credentials, allow/expose header
         '(simple requests of every method to registered and unregistered paths, preflights with every requested method incl. HEAD/OPTIONS/lower-case/unknown, with and without requested headers, bare OPTIONS); '
         'non-trivial = a preflight, or a simple request that ends in 404; distinct by canonical JSON')
 ASSUMPTIONS = ['"every response" = every response the router produces for a parsed request inside the scope of the CORS fang (the root application, or a mounted one: then the requests go under its prefix)',
-               '"the requested method is registered for that path" is membership in the advertised list (so HEAD with GET, and OPTIONS, succeed); method names are case-sensitive (DESIGN 6.0)']
+               '"the requested method is registered for that path": a request with that method to that path is served, i.e. some route registered for the method matches the path (plus HEAD with GET, plus OPTIONS itself); where the router keeps a per-pattern list instead, the difference is the known finding KF-C14-path-vs-pattern; method names are case-sensitive']
 H = ['X-Token', 'Content-Type', 'Authorization', 'X-Requested-With']
 
 
@@ -89,7 +89,10 @@ def corpus():
     nreqs = [pf('/q', 'GET'), pf('/q', 'PUT'), pf('/q', 'PATCH'), pf('/q', 'DELETE'), pf('/t/1/x', 'GET'), pf('/t/1/x', 'DELETE'), pf('/t/1/x', 'POST')]
     twin = {'fangs': [], 'items': [R('/a/b', 1, ['GET']), {'mount': '/a', 'app': {'fangs': [], 'items': [R('/b', 2, ['POST']), R('/b/c', 3, ['GET'])]}}, R('/a/b/c', 4, ['PUT'])]}
     treqs = [pf('/a/b', 'GET'), pf('/a/b', 'POST'), pf('/a/b', 'PUT'), pf('/a/b/c', 'GET'), pf('/a/b/c', 'PUT'), pf('/a/b/c', 'POST')]
-    return ([{'case': {'cors': p, 'app': app, 'reqs': reqs}} for p in pols] + [{'case': {'cors': pols[1], 'app': a, 'reqs': sreqs}} for a in (shared, shared2)]
+    # known finding KF-C14-path-vs-pattern: GET /users/me is served (by /users/:id), its preflight is answered by the automatic OPTIONS handler of /users/me, which knows POST alone
+    over = {'fangs': [], 'items': [R('/users/:id', 1, ['GET']), R('/users/me', 2, ['POST'])]}
+    oreqs = [pf('/users/me', 'GET'), pf('/users/me', 'POST'), pf('/users/7', 'GET'), pf('/users/7', 'POST'), {'m': 'GET', 'p': hx('/users/me'), 'origin': True, 'acrm': None, 'acrh': None}]
+    return ([{'case': {'cors': pols[1], 'app': over, 'reqs': oreqs}}] + [{'case': {'cors': p, 'app': app, 'reqs': reqs}} for p in pols] + [{'case': {'cors': pols[1], 'app': a, 'reqs': sreqs}} for a in (shared, shared2)]
             + [{'case': {'cors': pols[1], 'app': names, 'reqs': nreqs}}, {'case': {'cors': pols[0], 'app': twin, 'reqs': treqs}}])      # was: /x advertised `POST, OPTIONS` only; the successful preflight had no declared length
 
 
@@ -128,25 +131,37 @@ def spec_check(case, req, o):
         routes = [r for r in appgen.flat_routes(case['app']) if appgen.matches(r[0], segs)]
         allr = appgen.flat_routes(case['app'])
         from . import c01
+        KF = 'KF-C14-path-vs-pattern'
         if routes and c01.greedy_literal(allr, segs) is None and 400 <= status < 500:
-            return None          # a statics-first dead end (C01: no backtracking) is a 404 in the OPTIONS tree as well
+            # the statics-first dead end of C01 (KF-C01-dead-end) in the OPTIONS tree: the path is served by a route, its preflight is a 404
+            return (KF, 'the path is matched by a registered route, its preflight is answered 4xx (statics-first dead end in the OPTIONS tree)') if req['acrm'] is not None else None
         if req['acrm'] is not None and routes:
-            # the methods registered at the matched route(s): all items with the most static matching pattern
-            from . import c01
+            # "the methods registered for that path": every method under which a request to this path is served (C01: some route of that method matches it)
+            path_ms = []
+            for r in routes:
+                for m_ in r[1]:
+                    if m_ not in path_ms: path_ms.append(m_)
+            adv_path = set(path_ms) | ({'HEAD'} if 'GET' in path_ms else set()) | {'OPTIONS'}
+            # what the router keeps instead: the methods of the most static matching PATTERN alone (the automatic OPTIONS handler is per route pattern)
             best = [r for r in routes if all(c01.more_static_ok(r[0], q[0]) for q in routes)]
             pats = {tuple(r[0]) for r in best}
+            pat_ms = []
+            for r in best:
+                for m_ in r[1]:
+                    if m_ not in pat_ms: pat_ms.append(m_)
+            adv_pat = set(pat_ms) | ({'HEAD'} if 'GET' in pat_ms else set()) | {'OPTIONS'}
             if len(pats) == 1:
-                ms = []
-                for r in best:
-                    for m_ in r[1]:
-                        if m_ not in ms: ms.append(m_)
-                adv = set(ms) | ({'HEAD'} if 'GET' in ms else set()) | {'OPTIONS'}
-                ok = req['acrm'] in adv
+                ok = req['acrm'] in adv_path
                 if ok:
-                    if status != 200 and not (200 <= status < 300): return f'preflight for registered method {req["acrm"]} answered {status}'
+                    if not (200 <= status < 300):
+                        if adv_pat != adv_path and req['acrm'] not in adv_pat and 400 <= status < 500:
+                            return (KF, f'{req["acrm"]} is served at this path (by a less static route than the one whose automatic OPTIONS handler answers), its preflight is answered {status}')
+                        return f'preflight for registered method {req["acrm"]} answered {status}'
                     if body: return 'successful preflight with a body'
                     got = set((one(hs, 'Access-Control-Allow-Methods') or '').split(', '))
-                    if got != adv: return f'preflight advertises {sorted(got)}, registered there: {sorted(adv)}'
+                    if got != adv_path:
+                        if adv_pat != adv_path and got == adv_pat: return (KF, f'preflight advertises {sorted(got)} (the most static pattern alone), the path is served for {sorted(adv_path)}')
+                        return f'preflight advertises {sorted(got)}, registered there: {sorted(adv_path)}'
                     want_ah = ', '.join(pol['allow_headers']) if pol['allow_headers'] is not None else req['acrh']
                     if one(hs, 'Access-Control-Allow-Headers') != want_ah: return f'Access-Control-Allow-Headers {one(hs, "Access-Control-Allow-Headers")!r}, expected {want_ah!r}'
                     want_ma = str(pol['max_age']) if pol['max_age'] is not None else None
@@ -164,7 +179,8 @@ def judge(case, out, m):
     mm = m.get('model') if m else None
     for i, (req, o) in enumerate(zip(case['reqs'], out['reqs'])):
         bad = spec_check(case, req, o)
-        if bad: v.append(('violation', f'{req["m"]} {unhx(req["p"])!r} acrm={req["acrm"]}: {bad}'))
+        if isinstance(bad, tuple): v.append(('violation', f'{req["m"]} {unhx(req["p"])!r} acrm={req["acrm"]}: {bad[1]}', bad[0]))
+        elif bad: v.append(('violation', f'{req["m"]} {unhx(req["p"])!r} acrm={req["acrm"]}: {bad}'))
         if mm is not None and 'wire' in o:
             x = mm['reqs'][i]
             status, hs, body = parse(unhx(o['wire']))
